@@ -8,6 +8,7 @@ use humphrey_server::config::tree::parse_conf;
 use humphrey_server::config::{BlacklistMode, Config, LoadBalancerMode, RouteType};
 use humphrey_server::logger::LogLevel;
 use proptest::prelude::*;
+use proptest::strategy::ValueTree;
 use serde::{Deserialize, Serialize};
 use serde_json::{json, Value as J};
 use std::path::PathBuf;
@@ -226,6 +227,10 @@ struct Printer<'a> {
     dir: PathBuf,
     files: Vec<(PathBuf, Vec<Line>)>,
     include_budget: usize,
+    /// a content-free file (comments and blank lines) that is included at up to three places: including one file more than
+    /// once is not a cycle
+    shared: Option<PathBuf>,
+    shared_left: usize,
     plain_layout: bool,
 }
 
@@ -294,6 +299,14 @@ impl<'a> Printer<'a> {
                 }
             }
             self.filler(out);
+            if self.shared_left > 0 && self.rng.next() % 5 == 0 {
+                if let Some(path) = self.shared.clone() {
+                    self.shared_left -= 1;
+                    let ind = self.indent(depth);
+                    let c = self.comment();
+                    out.push(Line { text: format!("{}include \"{}\"{}", ind, path.display(), c), kind: LineKind::Include, noise });
+                }
+            }
             match &items[i] {
                 Item::Kv(k, v) => {
                     let ind = self.indent(depth);
@@ -326,7 +339,18 @@ pub fn render(m: &ConfM, seed: u64, dir: &PathBuf, includes: bool, plain: bool) 
     let blacklist_path = m.blacklist.as_ref().and_then(|(l, _)| l.as_ref()).map(|_| dir.join("blacklist.txt").display().to_string());
     let items = model_items(m, &mut rng, &blacklist_path);
     let main = dir.join("main.conf");
-    let mut p = Printer { rng: &mut rng, dir: dir.clone(), files: vec![(main, Vec::new())], include_budget: if includes { 3 } else { 0 }, plain_layout: plain };
+    let mut p = Printer { rng: &mut rng, dir: dir.clone(), files: vec![(main, Vec::new())], include_budget: if includes { 3 } else { 0 }, plain_layout: plain, shared: None, shared_left: 0 };
+    if includes && p.rng.next() % 2 == 0 {
+        let path = dir.join("shared-comments.conf");
+        let lines = vec![
+            Line { text: "# included from several places".into(), kind: LineKind::Other, noise: false },
+            Line { text: String::new(), kind: LineKind::Other, noise: false },
+            Line { text: "   # nothing but comments".into(), kind: LineKind::Other, noise: false },
+        ];
+        p.files.push((path.clone(), lines));
+        p.shared = Some(path);
+        p.shared_left = 3;
+    }
     let mut lines = Vec::new();
     p.filler(&mut lines);
     if !plain && p.rng.next() % 3 == 0 {
@@ -659,7 +683,54 @@ fn parse_error_location(e: &str) -> Option<(String, u64)> {
     Some((file, n))
 }
 
+/// Loads through the real entry point: the `humphrey` binary given the path of the main file (`Config::load` reads the
+/// file itself). A configuration that is accepted makes the server start, so only "rejected with which message" is
+/// observed; a process still running after 3 s counts as accepted and is killed.
+pub fn load_via_binary(bin: &str, main_path: &std::path::Path) -> Result<Result<(), String>, String> {
+    use std::io::Read;
+    let mut child = std::process::Command::new(bin)
+        .arg(main_path)
+        .current_dir(main_path.parent().unwrap_or(std::path::Path::new("/")))
+        .stdout(std::process::Stdio::piped())
+        .stderr(std::process::Stdio::piped())
+        .spawn()
+        .map_err(|e| format!("cannot start the server binary: {}", e))?;
+    let t0 = std::time::Instant::now();
+    loop {
+        match child.try_wait() {
+            Ok(Some(_)) => break,
+            Ok(None) => {
+                if t0.elapsed() > std::time::Duration::from_secs(3) {
+                    let _ = child.kill();
+                    let _ = child.wait();
+                    return Ok(Ok(()));
+                }
+                std::thread::sleep(std::time::Duration::from_millis(5));
+            }
+            Err(e) => return Err(e.to_string()),
+        }
+    }
+    let mut out = String::new();
+    if let Some(mut o) = child.stdout.take() {
+        let _ = o.read_to_string(&mut out);
+    }
+    if let Some(mut e) = child.stderr.take() {
+        let _ = e.read_to_string(&mut out);
+    }
+    match out.find("Configuration error at ") {
+        Some(k) => Ok(Err(format!("syntax: {}", out[k..].lines().next().unwrap_or("").trim()))),
+        None if out.contains("[ERROR]") => Ok(Err(format!("validation: {}", out.trim()))),
+        None => Ok(Err(format!("validation: server exited without serving: {}", out.trim()))),
+    }
+}
+
 pub fn check_mutant(m: &ConfM, seed: u64, fault: &Fault, pick: u64, with_includes: bool) -> (Vec<Fail>, bool, bool) {
+    check_mutant_with(m, seed, fault, pick, with_includes, None)
+}
+
+/// `binary`: load through the server binary (the `Config::load` entry point) instead of parse_conf + from_tree; the main
+/// file then starts with `lead` blank / whitespace-only lines.
+pub fn check_mutant_with(m: &ConfM, seed: u64, fault: &Fault, pick: u64, with_includes: bool, binary: Option<(&str, usize)>) -> (Vec<Fail>, bool, bool) {
     let tmp = TmpDir::new("c15m");
     let mut r = render(m, seed, &tmp.0, with_includes, false);
     let expect = match apply_fault(&mut r, fault, pick) {
@@ -668,10 +739,31 @@ pub fn check_mutant(m: &ConfM, seed: u64, fault: &Fault, pick: u64, with_include
     };
     write_files(&r, m, &tmp.0);
     let main_name = r.files[0].0.display().to_string();
-    let text = text_of(&r.files[0].1, true);
+    let mut text = text_of(&r.files[0].1, true);
+    // blank lines in front of the main file shift every line number of that file
+    let lead = binary.map_or(0, |(_, n)| n);
+    if lead > 0 {
+        text = format!("{}{}", ["\n", "  \n", "\t\n"].iter().cycle().take(lead).copied().collect::<String>(), text);
+    }
+    let shift = |fi: usize, line: usize| if fi == 0 { line + lead } else { line };
+    let expect = match expect {
+        Expect::SyntaxAt(fi, l) => Expect::SyntaxAt(fi, shift(fi, l)),
+        Expect::NoCrash(fi, l) => Expect::NoCrash(fi, shift(fi, l)),
+        other => other,
+    };
+    if binary.is_some() && !matches!(expect, Expect::SyntaxAt(..) | Expect::SyntaxEof(..)) {
+        // only pure syntax faults go through the binary: anything it accepts would start a server
+        return (vec![Fail::new("skipped", "")], false, false);
+    }
     let all_text = format!("{}{}", text, r.files.iter().skip(1).map(|(p, l)| format!("\n--- {}\n{}", p.display(), text_of(l, true))).collect::<String>());
     let fname = fault_name(fault);
-    let res = load(&text, &main_name);
+    let res: Result<Result<(), String>, String> = match binary {
+        None => load(&text, &main_name).map(|r| r.map(|_| ())),
+        Some((bin, _)) => {
+            std::fs::write(&r.files[0].0, &text).unwrap();
+            load_via_binary(bin, &r.files[0].0)
+        }
+    };
     let mut fails = Vec::new();
     let not_first_line = match &expect {
         Expect::SyntaxAt(_, l) | Expect::NoCrash(_, l) => *l > 1,
@@ -703,7 +795,7 @@ pub fn check_mutant(m: &ConfM, seed: u64, fault: &Fault, pick: u64, with_include
                     )),
                 },
                 Expect::SyntaxEof(fi) => {
-                    let n = r.files[*fi].1.len() as u64;
+                    let n = r.files[*fi].1.len() as u64 + if *fi == 0 { lead as u64 } else { 0 };
                     match loc {
                         Some((file, l)) if file == r.files[*fi].0.display().to_string() && l >= n && l <= n + 3 => {}
                         _ => fails.push(fail!(
@@ -812,7 +904,7 @@ fn model_nontrivial(m: &ConfM) -> bool {
 }
 
 pub fn run(ctx: &Ctx) {
-    ctx.rule("a ConfModel (address, port, threads, timeout, websocket, blacklist file+mode, log, cache size with K/M/G in either case + time, 0..4 hosts, 0..8 routes of every type incl. multi-pattern routes and proxy target lists, noise keys/sections) is rendered with random indentation, comments, blank lines, key order and include-file splitting (nested to 3), in three layouts; the loaded Config must equal the model field by field. Single-fault mutants (missing { / }, missing value, bad number, bad enum, unknown unit, unterminated quote, out-of-range port/threads, a non-ASCII character at a random position) must be rejected with file and line for syntax faults and never crash. Non-trivial: model with >=1 host and a multi-pattern route, or a size unit, or an include; mutants: fault not on the first line; distinct by model/mutant");
+    ctx.rule("a ConfModel (address, port, threads, timeout, websocket, blacklist file+mode, log, cache size with K/M/G in either case + time, 0..4 hosts, 0..8 routes of every type incl. multi-pattern routes and proxy target lists, noise keys/sections) is rendered with random indentation, comments, blank lines, key order and include-file splitting (nested to 3, plus a comments-only file included at up to three places), in three layouts; the loaded Config must equal the model field by field. Single-fault mutants (missing { / }, missing value, bad number, bad enum, unknown unit, unterminated quote, out-of-range port/threads, a non-ASCII character at a random position) must be rejected with file and line for syntax faults and never crash. Non-trivial: model with >=1 host and a multi-pattern route, or a size unit, or an include; mutants: fault not on the first line; distinct by model/mutant");
     ctx.assume("no duplicate keys within a section, no `#` inside quoted values, single spaces only as key/value separator tabs only in indentation, `server {` spelled exactly; proxy target lists without spaces");
     ctx.exclude("`#` inside quoted strings (documented comment rule makes it ambiguous)", 0);
     let cases = ctx.tier.pick(1_600u32, 48_000u32);
@@ -861,7 +953,51 @@ pub fn run(ctx: &Ctx) {
                 fails
             },
         );
+    });    binary_mutants(ctx);
+}
+
+/// Syntax faults through the real entry point (`Config::load` inside the server binary), the main file preceded by
+/// 0..7 blank or whitespace-only lines.
+fn binary_mutants(ctx: &Ctx) {
+    let bin = match crate::props::c19::build_server_binary() {
+        Ok(b) => b,
+        Err(e) => {
+            ctx.inconclusive(&format!("entry-point level skipped: {}", e));
+            return;
+        }
+    };
+    let n = ctx.tier.pick(64usize, 800usize);
+    let next = std::sync::atomic::AtomicUsize::new(0);
+    let found: std::sync::Mutex<Vec<(Fail, J)>> = std::sync::Mutex::new(Vec::new());
+    crate::engine::shards(16, |sh| {
+        let mut runner = proptest::test_runner::TestRunner::new(proptest::test_runner::Config { rng_seed: proptest::test_runner::RngSeed::Fixed(pt::mix(ctx.seed, 1580 + sh as u64)), failure_persistence: None, ..Default::default() });
+        loop {
+            let k = next.fetch_add(1, std::sync::atomic::Ordering::SeqCst);
+            if k >= n {
+                break;
+            }
+            let m = arb_model().new_tree(&mut runner).unwrap().current();
+            let fault = arb_fault().new_tree(&mut runner).unwrap().current();
+            let seed = pt::mix(ctx.seed, 15_800 + k as u64);
+            let lead = [0usize, 1, 3, 7][k % 4];
+            let (fails, _, in_include) = check_mutant_with(&m, seed, &fault, seed >> 7, k % 2 == 0, Some((&bin, lead)));
+            if fails.iter().any(|f| f.sig == "skipped") {
+                ctx.exclude("entry-point level: generated fault is not a pure syntax fault (the binary would start serving)", 1);
+                continue;
+            }
+            ctx.case(hash_of(&("binary", k, seed)), true, &["entry-point:syntax-fault", if lead > 0 { "entry-point:leading-blank-lines" } else { "entry-point:no-leading-lines" }, if in_include { "entry-point:fault-in-include" } else { "entry-point:fault-in-main-file" }]);
+            for f in fails {
+                found.lock().unwrap().push((Fail { sig: format!("entry-point:{}", f.sig), detail: f.detail }, json!({"model_seed": seed.to_string(), "lead": lead, "k": k})));
+            }
+        }
     });
+    ctx.sample("entry-point:syntax-fault", || json!({"how": "humphrey <main file> with one syntax fault; the error message must name the file and line", "leading_blank_lines": [0, 1, 3, 7]}));
+    let mut seen = std::collections::BTreeSet::new();
+    for (f, c) in found.into_inner().unwrap() {
+        if seen.insert(f.sig.clone()) && !ctx.tolerate(&f) {
+            ctx.violation(f, "entry-point", c);
+        }
+    }
 }
 
 pub fn replay(_ctx: &Ctx, kind: &str, case: &J) -> Vec<Fail> {
